@@ -17,7 +17,7 @@ BOUNDED = {
     "C08": "`concatenate(axis=1)`, `_as_padded_matrix`, `subset`",
     "C09": "float / bool column sums, `mean(axis=0)`",
     "C10": "differential histories (the history relation itself)",
-    "C11": "constructor (bucket build), histories against a dict",
+    "C11": "histories against a dict (composition of the proved constructor invariant, lookup and assignment contracts is a paper argument)",
     "C12": "totals end to end against `collections.Counter`",
     "C13": "cross-check only",
     "C14": "dtype matrix",
